@@ -9,8 +9,9 @@
 (*   op   "construct" (first event only) | "full" | "epoch" | "upstream"   *)
 (*        | "revision" | "copy";  v the text given (<<-1>> for None);      *)
 (*   res  "ok" | "ValueError" | "EXC:<type>";                              *)
-(*   obs  [full, epoch, upstream, revision] read back from the object      *)
-(*        after the call (all <<-1>> while there is no object).            *)
+(*   obs  [full, epoch, upstream, revision, key] read back from the object *)
+(*        the history continues on (all <<-1>> while there is no object);  *)
+(*   kobs the same projection of the OTHER object of the last copy.        *)
 (* Where the specification says "unspec" (D2 zone, None as upstream, ""    *)
 (* as revision) any outcome is accepted and the observed object is adopted *)
 (* so that the rest of the trace is still checked.  Batched: one TLC run   *)
@@ -28,7 +29,7 @@ Tr == Traces[tid]
 
 TInit == /\ tid \in 1..Len(Traces)
          /\ l = 1
-         /\ inp = <<>> /\ obj = NoObj /\ res = "none"
+         /\ inp = <<>> /\ obj = NoObj /\ kept = NoObj /\ res = "none"
 
 Outcome(e) == CASE e.op = "construct" -> FullOutcome(NoObj, e.v)
                 [] e.op = "full"      -> FullOutcome(obj, e.v)
@@ -46,6 +47,10 @@ TStep == /\ l <= Len(Tr.events)
                    ELSE /\ o.res = e.res                           \* accepted / rejected as specified
                         /\ o.obj = e.obs                           \* components = decomposition / rolled back
                         /\ obj' = o.obj /\ res' = o.res
+              \* the object store: a Copy retains one object of the pair (both have obj's state);
+              \* whatever happens to the other one later, the retained one reads back unchanged
+              /\ kept' = IF e.op = "copy" THEN obj ELSE kept
+              /\ e.kobs = kept'
          /\ l' = l + 1 /\ UNCHANGED <<tid, inp>>
          /\ (Diag => PrintT(<<"AT", tid, l>>))
          /\ (l' = Len(Tr.events) + 1 => PrintT(<<"ACCEPTED", tid>>))
